@@ -114,7 +114,9 @@ def attempt(w, idx, startup, response, tls, rng):
             out = W.Password(md5_password(u, PREVIOUS.get(pw, 'secret0'), salt))
         elif response == 'other_users_password':
             other = {'aqsecret': 'aqsecret2', 'aqsecret2': 'aqsecret', 'adminpw': 'secret1'}.get(pw, 'adminpw')
-            out = W.Password(md5_password(u, other, salt))
+            # the other user's secret as the server stores it: md5(password || that user's name)
+            other_name = {'aqsecret': 'u_aq2', 'aqsecret2': 'u_aq'}.get(pw, u)
+            out = W.Password(md5_password(other_name, other, salt))
         elif response == 'truncated':
             full = W.Password(md5_password(u, pw, salt))
             out = full[:rng.choice([1, 3, 5, 9, len(full) - 1])]
